@@ -130,3 +130,24 @@ theorem find_none_forall {α : Type} {l : List α} {id : α → Nat} {f : Nat}
   exact h y hy (by simp [hc])
 
 end ALock
+
+namespace ALock
+
+theorem sum_map_update_same {α : Type} (l : List α) (p : α → Bool) (g : α → α) (h : α → Nat)
+    (hg : ∀ x, h (g x) = h x) :
+    ((l.map fun y => if p y then g y else y).map h).sum = (l.map h).sum := by
+  induction l with
+  | nil => rfl
+  | cons a t ih =>
+    simp only [List.map_cons, List.sum_cons, ih]
+    split <;> simp [hg]
+
+theorem nodup_cons_fresh {α : Type} (l : List α) (id : α → Nat) (x : α)
+    (hn : (l.map id).Nodup) (hf : ∀ y ∈ l, id y ≠ id x) : ((x :: l).map id).Nodup := by
+  simp only [List.map_cons, List.nodup_cons]
+  refine ⟨?_, hn⟩
+  intro hm
+  obtain ⟨y, hy, hyi⟩ := List.mem_map.mp hm
+  exact hf y hy hyi
+
+end ALock
